@@ -58,11 +58,11 @@ type Op struct {
 	ctx     context.Context
 	cancel  context.CancelFunc
 
-	Invoke    int64
-	Return    int64
-	InvokeT   time.Duration
-	ReturnT   time.Duration
-	CancelT   time.Duration // when the scheduler cancelled it (cancel kind), -1 otherwise
+	Invoke  int64
+	Return  int64
+	InvokeT time.Duration
+	ReturnT time.Duration
+	CancelT time.Duration // when the scheduler cancelled it (cancel kind), -1 otherwise
 	// CancelAtYield > 0: the context is cancelled by the yield hook at the k-th yield point any
 	// library goroutine passes after the operation started, i.e. at an arbitrary instant inside the
 	// call instead of at a quiescence point
@@ -70,13 +70,13 @@ type Op struct {
 	yieldLeft     int
 	yCancelled    bool
 	yCancelT      time.Duration
-	done      bool
-	Res       any
-	Err       error
-	Panic     string
-	Meta      any
-	OnDone    func(op *Op)
-	harvested bool
+	done          bool
+	Res           any
+	Err           error
+	Panic         string
+	Meta          any
+	OnDone        func(op *Op)
+	harvested     bool
 }
 
 type task struct {
